@@ -260,18 +260,13 @@ pub(super) mod verif_export {
     fn replace_space_and_control_spec_len1() {
         replace_spec::<1>(true)
     }
-    /// full documented contract (controls AND spaces), ASCII strings of length 2
+    /// control characters only (inputs without spaces), length 1: isolates the space clause
     #[kani::proof]
-    #[kani::unwind(6)]
-    fn replace_space_and_control_spec_len2() {
-        replace_spec::<2>(true)
+    #[kani::unwind(3)]
+    fn replace_control_only_spec_len1() {
+        replace_spec::<1>(false)
     }
-    /// control characters only (inputs without spaces), length 2
-    #[kani::proof]
-    #[kani::unwind(6)]
-    fn replace_control_only_spec_len2() {
-        replace_spec::<2>(false)
-    }
+
     /// Diagram name: "In the diagram name, control characters will be replaced by spaces."
     /// `write_replacing_control` writes exactly len bytes, control -> ' ', others verbatim, and
     /// returns whether something was replaced.  ASCII strings of length 3.
